@@ -172,8 +172,10 @@ static int run_day(ygm::comm& world, int argc, char** argv) {
   hc::rng mine(seed * 1000003ULL + 7919ULL * (uint64_t)world.rank() + 1);
   {
     ygm::io::daily_output<> d(world, root, (size_t)L, false);
-    for (long i = 0; i < nwrites; ++i) {
-      uint64_t ts = tss[mine.below(tss.size())];
+    std::vector<uint64_t> plan;      // every timestamp at least once (dealt round-robin over the ranks), then random repeats
+    for (size_t i = 0; i < tss.size(); ++i) if ((int)(i % world.size()) == world.rank()) plan.push_back(tss[i]);
+    for (long i = 0; i < nwrites; ++i) plan.push_back(tss[mine.below(tss.size())]);
+    for (uint64_t ts : plan) {
       std::string line = std::to_string(ts) + " " + gen_line(mine, L, 20);
       d.async_write_line(ts, line);
       std::time_t t = (std::time_t)ts; std::tm tmv; gmtime_r(&t, &tmv);
